@@ -452,6 +452,22 @@ def field_reads(F, owner, name):
     return out
 
 
+def agg_operand_index(st, owner, name):
+    """index of the operand of an aggregate statement (`S { f: move x.f, ..x }`, struct-update syntax) that reads the
+    field owner.name directly, or None"""
+    rv = (st or {}).get("rv") or {}
+    if st is None or st.get("k") != "assign" or "agg" not in rv:
+        return None
+    for oi, o in enumerate(rv.get("ops", [])):
+        pl = op_place(o)
+        if pl is None:
+            continue
+        fs = [e for e in pl["p"] if isinstance(e, dict) and "f" in e]
+        if fs and fs[-1]["n"] == name and ends(fs[-1]["o"], owner):
+            return oi
+    return None
+
+
 def direct_place(b, op, depth=12):
     """Follow single-definition copies, moves, reborrows and casts from an operand back to the place it
     denotes (no slicing): returns the place or None.  Steps through `*r` when r is a single-definition reference to a
